@@ -189,6 +189,23 @@ impl IterationStateLock {
 
     /// Block the thread if the current generation of the lock is lower that the requested one.
     pub fn wait_for_update(&self, generation: usize) {
+        #[cfg(feature = "verif")]
+        let _verif_guard = {
+            struct Exit;
+            impl Drop for Exit {
+                fn drop(&mut self) {
+                    crate::verif::emit(&crate::verif::Event::StateWaitExit);
+                }
+            }
+            if crate::verif::enabled() {
+                let current = *self.generation.lock().unwrap();
+                crate::verif::emit(&crate::verif::Event::StateWaitEnter {
+                    wanted: generation,
+                    current,
+                });
+            }
+            Exit
+        };
         let _gen = self
             .cond_var
             .wait_while(self.generation.lock().unwrap(), |r| *r < generation)
